@@ -30,6 +30,7 @@ GENERATORS = [
     ('gen_cphd', 'CphdKernels.lean', _unsup),
     ('gen_openers', 'Openers.lean', _unsup),
     ('gen_loops', 'Loops.lean', _unsup),
+    ('gen_polyloops', 'PolyLoops.lean', _unsup),
     ('gen_dispatch', 'Dispatch.lean', _unsup),
     ('gen_segstate', 'SegState.lean', lambda r: {'unsupported': r['unsupported'], 'mutations': r['mutations'], 'acct': r['acct']}),
     ('tables_xml', 'XmlTables.lean', lambda r: None),
